@@ -536,12 +536,15 @@ func addReflectStubs(m map[string]stubFn) {
 	}
 	m[V+"CanSet"] = func(in *Interp, fr *frame, args []Value) Value {
 		r := rv(args[0])
-		return Bool(r.ptr != nil && r.flag&rvRO == 0)
+		return Bool(r.ptr != nil && r.flag&rvAddr != 0 && r.flag&rvRO == 0)
 	}
-	m[V+"CanAddr"] = func(in *Interp, fr *frame, args []Value) Value { return Bool(rv(args[0]).ptr != nil) }
+	m[V+"CanAddr"] = func(in *Interp, fr *frame, args []Value) Value {
+		r := rv(args[0])
+		return Bool(r.ptr != nil && r.flag&rvAddr != 0)
+	}
 	m[V+"Addr"] = func(in *Interp, fr *frame, args []Value) Value {
 		r := rv(args[0])
-		if r.ptr == nil {
+		if r.ptr == nil || r.flag&rvAddr == 0 {
 			rpanic(fr, "reflect.Value.Addr of unaddressable value")
 		}
 		return &RValue{t: types.NewPointer(r.t), v: r.ptr}
@@ -551,7 +554,7 @@ func addReflectStubs(m map[string]stubFn) {
 		if r.t == nil {
 			rpanic(fr, "reflect: call of reflect.Value.Set on zero Value")
 		}
-		if r.ptr == nil {
+		if r.ptr == nil || r.flag&rvAddr == 0 {
 			rpanic(fr, "reflect: reflect.Value.Set using unaddressable value")
 		}
 		if r.flag&rvRO != 0 {
@@ -1340,3 +1343,22 @@ func (in *Interp) callCodePtr(fr *frame, f *FuncV, args []Value) Value {
 }
 
 var _ = strings.Contains
+
+// rvFromWords builds a reflect.Value from its three words (typ, ptr, flag) as written by
+// goom through a hack.Value overlay.
+func (in *Interp) rvFromWords(fr *frame, s *Struct) Value {
+	tp, _ := s.f[0].(*Value)
+	if tp == nil {
+		return &RValue{}
+	}
+	rt, ok := (*tp).(*RType)
+	if !ok {
+		panic(pathAbort{"unsupported: reflect.Value built from unknown type word at " + fr.site()})
+	}
+	switch kindOf(rt.t) {
+	case kFunc, kPtr, kMap, kChan, kUnsafePointer:
+		return &RValue{t: rt.t, v: s.f[1]}
+	}
+	// indirect kinds: the ptr word points at the data
+	return &RValue{t: rt.t, ptr: s.f[1]}
+}
